@@ -305,9 +305,10 @@ func TestPropSpacing(t *testing.T) { rapid.Check(t, prop) }
 // ExprCase: NewLine spacing on expression-level nodes splits argument lists and literals one
 // element per line.
 type ExprCase struct {
-	Kind   string `json:"kind"` // args | elems | keyed | params
+	Kind   string `json:"kind"` // args | elems | keyed | params | gparams | qualified
 	N      int    `json:"n"`
 	Spaces []int  `json:"spaces"` // Before of each element; After of the last is Spaces[N]
+	Close  int    `json:"close"`  // args / qualified with last After == None: 1 = an explicit "\n" on the point in front of ')' (CallExpr.Ellipsis)
 }
 
 func checkExpr(t h.TB, c ExprCase) {
@@ -319,6 +320,8 @@ func checkExpr(t h.TB, c ExprCase) {
 			elems = append(elems, fmt.Sprintf("K%d: %d", i, i))
 		case "params":
 			elems = append(elems, fmt.Sprintf("a%d int", i))
+		case "gparams":
+			elems = append(elems, fmt.Sprintf("a%d %s", i, []string{"Pair[K, V]", "*Pair[K, V]", "[]Map[K, V]", "List[T]"}[i%4]))
 		case "qualified":
 			elems = append(elems, fmt.Sprintf("os.A%d", i))
 		default:
@@ -335,7 +338,7 @@ func checkExpr(t h.TB, c ExprCase) {
 		src = "package p\n\nvar x = []T{" + strings.Join(elems, ", ") + "}\n"
 	case "keyed":
 		src = "package p\n\nvar x = T{" + strings.Join(elems, ", ") + "}\n"
-	case "params":
+	case "params", "gparams":
 		src = "package p\n\nfunc f(" + strings.Join(elems, ", ") + ") {\n}\n"
 	}
 	var f *dst.File
@@ -366,7 +369,7 @@ func checkExpr(t h.TB, c ExprCase) {
 		for _, a := range f.Decls[0].(*dst.GenDecl).Specs[0].(*dst.ValueSpec).Values[0].(*dst.CompositeLit).Elts {
 			list = append(list, a)
 		}
-	case "params":
+	case "params", "gparams":
 		for _, a := range f.Decls[0].(*dst.FuncDecl).Type.Params.List {
 			list = append(list, a)
 		}
@@ -375,6 +378,18 @@ func checkExpr(t h.TB, c ExprCase) {
 		n.Decorations().Before = dst.SpaceType(c.Spaces[i])
 	}
 	list[len(list)-1].Decorations().After = dst.SpaceType(c.Spaces[c.N])
+	closeText := ""
+	if c.Close > 0 && (c.Kind == "args" || c.Kind == "qualified") {
+		var call *dst.CallExpr
+		dst.Inspect(f, func(n dst.Node) bool {
+			if ce, ok := n.(*dst.CallExpr); ok && call == nil {
+				call = ce
+			}
+			return true
+		})
+		call.Decs.Ellipsis.Append("\n")
+		closeText = "\n"
+	}
 	var buf bytes.Buffer
 	h.Guard(t, sub, c, func() {
 		if c.Kind == "qualified" {
@@ -388,7 +403,7 @@ func checkExpr(t h.TB, c ExprCase) {
 	}
 	// model: a line break before element i iff Spaces[i] >= NewLine (blank line iff EmptyLine);
 	// the closing delimiter on its own line iff Spaces[N] >= NewLine; gofmt adds the trailing comma.
-	open, closer := map[string]string{"qualified": "import \"os\"\n\nvar x = f(", "args": "var x = f(", "elems": "var x = []T{", "keyed": "var x = T{", "params": "func f("}[c.Kind], map[string]string{"qualified": ")", "args": ")", "elems": "}", "keyed": "}", "params": ") {\n}"}[c.Kind]
+	open, closer := map[string]string{"qualified": "import \"os\"\n\nvar x = f(", "args": "var x = f(", "elems": "var x = []T{", "keyed": "var x = T{", "params": "func f(", "gparams": "func f("}[c.Kind], map[string]string{"qualified": ")", "args": ")", "elems": "}", "keyed": "}", "params": ") {\n}", "gparams": ") {\n}"}[c.Kind]
 	var sb strings.Builder
 	sb.WriteString("package p\n\n" + open)
 	for i, e := range elems {
@@ -400,7 +415,11 @@ func checkExpr(t h.TB, c ExprCase) {
 			sb.WriteString(", ")
 		}
 	}
-	if c.Spaces[c.N] > 0 {
+	// an explicit "\n" or a line comment on the point in front of the closing parenthesis
+	// contributes its own line break, which also serves as the first break of the last After
+	if closeText != "" {
+		sb.WriteString("," + closeText)
+	} else if c.Spaces[c.N] > 0 {
 		sb.WriteString("," + strings.Repeat("\n", c.Spaces[c.N]))
 	}
 	sb.WriteString(closer + "\n")
@@ -414,7 +433,7 @@ func checkExpr(t h.TB, c ExprCase) {
 }
 
 func genExpr(t *rapid.T) (ExprCase, bool) {
-	c := ExprCase{Kind: []string{"args", "elems", "keyed", "params", "qualified"}[rapid.IntRange(0, 4).Draw(t, "kind")], N: rapid.IntRange(1, 5).Draw(t, "n")}
+	c := ExprCase{Kind: []string{"args", "elems", "keyed", "params", "qualified", "gparams"}[rapid.IntRange(0, 5).Draw(t, "kind")], N: rapid.IntRange(1, 5).Draw(t, "n")}
 	allNL := rapid.Bool().Draw(t, "allnewline")
 	for i := 0; i <= c.N; i++ {
 		if allNL {
@@ -425,6 +444,9 @@ func genExpr(t *rapid.T) (ExprCase, bool) {
 	}
 	// a closing delimiter on its own line needs ... nothing else; an element on its own line while
 	// the closer stays on the last element's line is also valid Go
+	if (c.Kind == "args" || c.Kind == "qualified") && c.Spaces[c.N] == 0 && rapid.Bool().Draw(t, "close") {
+		c.Close = 1 // an explicit "\n" on the point in front of ')' puts the parenthesis on its own line
+	}
 	h.Label("exprkind:" + c.Kind)
 	h.NonTrivial("ExprSplit", fmt.Sprint(c))
 	h.Sample("ExprSplit", c)
